@@ -87,8 +87,10 @@ def long_texts(run):
             out += ["1" * n + "x", "1" * n + ".5x", "1" * n + "_"]
     for n in [5000, big]:
         out += ["a" * n, "a" * n + "(", "a" * n + "()", "$" + "a" * n, "'" + "a" * n + "'", "'" + "a" * n,
-                "_" * n, "_a" * n, "`" + "\\`" * (n // 2) + "`", "'" + "\\\\" * (n // 2) + "'", "(" * n, "1 " * (n // 2),
+                "_" * n, "_a" * n, "`" + "\\`" * (n // 2) + "`", "'" + "\\\\" * (n // 2) + "'",
                 "é" * n, "'" + "\\x41" * (n // 4) + "'", " " * n, " " * n + "#"]
+    # many tokens (the token list itself is the observation, so these stay moderate)
+    out += ["(" * 2000, "1 " * 1000, "[" * 1500 + "]" * 1500, "-" * 2000 + "1", "a." * 1000 + "a", "f(" * 700 + ")" * 700]
     return out
 
 
